@@ -48,6 +48,35 @@ func stabilityPhase(r *ev.Run) {
 		}
 		return b.Bytes()
 	}
+	// --- stand-alone transaction outputs (ReadTxOut / WriteTxOut), then a
+	// transaction: the first output must still be what was decoded
+	{
+		oa := &wire.TxOut{Value: 0x1122334455, PkScript: bytes.Repeat([]byte{0xaa}, 25)}
+		ob := &wire.TxOut{Value: 7, PkScript: bytes.Repeat([]byte{0xbb}, 25)}
+		ea := ser(func(w io.Writer) error { return wire.WriteTxOut(w, wire.ProtocolVersion, 2, oa) })
+		eb := ser(func(w io.Writer) error { return wire.WriteTxOut(w, wire.ProtocolVersion, 2, ob) })
+		var ra, rb wire.TxOut
+		if err := wire.ReadTxOut(bytes.NewReader(ea), wire.ProtocolVersion, 2, &ra); err != nil {
+			r.Broken("stability phase: ReadTxOut failed: %v", err)
+		}
+		right := ser(func(w io.Writer) error { return wire.WriteTxOut(w, wire.ProtocolVersion, 2, &ra) })
+		if err := wire.ReadTxOut(bytes.NewReader(eb), wire.ProtocolVersion, 2, &rb); err != nil {
+			r.Broken("stability phase: ReadTxOut failed: %v", err)
+		}
+		afterOut := ser(func(w io.Writer) error { return wire.WriteTxOut(w, wire.ProtocolVersion, 2, &ra) })
+		var dt wire.MsgTx
+		if err := dt.Deserialize(bytes.NewReader(ser(mkTx(0x77, 2).Serialize))); err != nil {
+			r.Broken("stability phase: decode failed: %v", err)
+		}
+		afterTx := ser(func(w io.Writer) error { return wire.WriteTxOut(w, wire.ProtocolVersion, 2, &ra) })
+		r.Eval(3)
+		if !bytes.Equal(right, ea) || !bytes.Equal(afterOut, ea) || !bytes.Equal(afterTx, ea) {
+			unstableDecodes = true
+			r.Violation("a/stability/txout/decoded-value-changes-after-a-later-decode",
+				fmt.Sprintf("a transaction output decoded with ReadTxOut from %x re-encodes to %x right away, to %x after another ReadTxOut and to %x after a transaction was decoded", ea, right, afterOut, afterTx),
+				map[string]string{"phase": "stability", "kind": "txout"})
+		}
+	}
 	// --- stand-alone transactions
 	ta, tb := ser(mkTx(0x21, 2).Serialize), ser(mkTx(0x42, 2).Serialize)
 	var da, db wire.MsgTx
